@@ -1,5 +1,6 @@
 import OmbottModel.Py
 import OmbottModel.Model.Router
+import OmbottModel.Model.RouterSpec
 import OmbottModel.Gen.Routeurl
 /-!
 Executable model of URL building (`ombott/router/radirouter.py: Route.url`,
@@ -11,8 +12,8 @@ Sections
      formatter `str(int(x))`)
   2. output formatters and the sanity check of `url`
   3. `Route.url`: the marker-by-marker loop with its slice bookkeeping, as written
-  4. Spec: `matchRule` (one rule against one path, left to right, no retry) and `urlSpec`
-     (what `url` amounts to: literal characters copied, one formatted value per wildcard)
+  4. Spec: `urlSpec` (what `url` amounts to: literal characters copied, one formatted value per
+     wildcard); the matcher is `Router.matchRule` of `Model/RouterSpec.lean`
 
 Regular expressions stay in Python: every filter other than `int` is a parameter
 (`FilterEnv`: the handler `f_in`; `FormatEnv`: the formatter `f_out`).
@@ -228,19 +229,10 @@ def splitArgs : List Str → List Val → List Val × List (Str × Val)
 
 /-! ## 4. Spec -/
 
-/-- one rule against one path: left to right, literal text must be next, a wildcard is tried
-only if something is left and takes what its filter (or "up to the next `/`") says, once;
-success iff nothing is left.  `rex` selectors are outside this matcher. -/
-def matchRule (env : FilterEnv) : List Sym → Str → Option (List Val)
-  | [], [] => some []
-  | [], _ :: _ => none
-  | .lit _ :: _, [] => none
-  | .lit c :: p, d :: r => if c == d then matchRule env p r else none
-  | .tok _ :: _, [] => none
-  | .tok f :: p, d :: r =>
-    match tokRes env f (d :: r) with
-    | none => none
-    | some res => (matchRule env p ((d :: r).drop res.n)).map (res.val :: ·)
+/- The rule-by-rule matcher the theorems refer to is `Ombott.Router.matchRule` of
+`Model/RouterSpec.lean` (C01's specification: left to right, literal text must be next, a
+wildcard is tried only if something is left and takes what its filter says, once; success iff
+nothing is left; `rex` selectors are outside it). -/
 
 /-- what `url` amounts to: the pieces of the URL in order, one per literal character and one
 formatted value per wildcard (values consumed left to right), sanity-checked in front of the
